@@ -14,22 +14,24 @@ CHECKS = {
  "C03": ("model_checking", "trace validation against FixTrace.tla (EffectWithin per documented class)", "6 C03",
    "Every fix window of every rule application is checked against the effect class its documentation declares (WsOnly / VertOnly / CaseOnly / structural vocabulary / never fixes); phase-1 normalisation has its own clause.", FIX_NOTE),
  "C04": ("model_checking", "TLC on LexerImpl.tla (transcription of tokens.py) refining Lexer.tla + exhaustive replay into tokens.create + trace clauses", "3.2 C04",
-   "Lexer: exhaustive over all strings <= 4 (quick) / 5 (thorough) over 21 character classes in TLC, and the real tokens.create replayed on the same exhaustive space with every pass compared with the transcription; random and corpus lines against the contract. "
-   "Parse/emit round trip, every token classified, clean file never rewritten: clauses C04_* on every fix-run trace and on strace-recorded CLI runs.",
-   "LexerOps.tla is a transcription of vsg/tokens.py; its fidelity is itself checked (zero drift on the exhaustive space). Alphabet of 21 classes. Round-trip clauses hold on the explored files only."),
+   "Lexer: exhaustive over all strings <= 4 (quick) / 5 (thorough) over 23 character classes in TLC, and the real tokens.create replayed on the same exhaustive space with every pass compared with the transcription; random and corpus lines against the contract. "
+   "Parse/emit round trip, every token classified, clean file never rewritten: clauses C04_* on every fix-run trace, on strace-recorded CLI runs (a clean file sees no mutating system call; also with unreported trailing blanks), and C04_NoFixNoWrite on multi-file runs validated against Main.tla.",
+   "LexerOps.tla is a transcription of vsg/tokens.py; its fidelity is itself checked (zero drift on the exhaustive space). Alphabet of 23 classes. Round-trip clauses hold on the explored files only."),
  "C07": ("model_checking", "trace validation against FixTrace.tla (line arithmetic on the recorded token lists)", "6 C07",
    "For every application of a whitespace/indent/alignment/case rule TLC splits the model list into lines before and after and compares the changed line numbers with the reported ones (C07_ChangedButNotReported, C07_ReportedButUnchanged, C07_LineCount, C07_InFile).", FIX_NOTE),
  "C08": ("model_checking", "trace validation against FixTrace.tla (model vs fresh parse of the emitted text)", "6 C08",
    "After every traced fix run the text the model would be written as is parsed afresh by the real parser; TLC compares kinds, values, roles and indent levels with the model (C08_Accepted, C08_SameTokens, C08_SameIndent).", FIX_NOTE),
  "C09": ("model_checking", "trace validation against FixTrace.tla (text after each of n successive --fix runs)", "6 C09",
-   "Every default-configuration input is fixed 2 (quick) / 4 (thorough) times in a row exactly as the CLI would; TLC checks second-fix-changes-nothing, no oscillation, eventually constant.", FIX_NOTE),
+   "Design: Converge.tla - idempotent rules (C10) + phase discipline + canonical write-back (C08) imply that a second run changes nothing, for every disturbance relation (3 mutants, one per mechanism); FixSchedule.tla for the clean-up / indent points. "
+   "Binding: every default-configuration and smart_tabs input is fixed 2 (quick) / 4 (thorough) times in a row exactly as the CLI would; TLC checks second-fix-changes-nothing, no oscillation, eventually constant, and the schedule clauses on every trace.", FIX_NOTE),
  "C10": ("model_checking", "trace validation against FixTrace.tla (Refix probe after every changing fix)", "6 C10",
    "After every rule application that changed the list, the same rule is analysed, fixed and analysed again on a deep copy; the spec's Refix step must stutter (C10_RefixChangesNothing, C10_OnlyUnrepairableLeft).", FIX_NOTE),
  "C11": ("model_checking", "TLC on CodeTags.tla (documentation machine vs transcription of code_tags.py) + exhaustive stamp replay + planted-tag reports + C11_NoFixWhereTagged on fix traces", "3.5 C11",
    "Design: reference and implementation tag machines in lock step over all line-kind sequences (with the pre-fix has_code_tag as a mutant that must fail). Binding: every sequence of <= 4/5 lines through the real parser; tags planted in corpus files vs neutral twins through the real rule set; no fix window may contain a token tagged for its rule.",
    "docs/code_tags.rst is the reference; tag-carrying lines are unconstrained; report mode samples files and placements."),
  "C16": ("fault_enumeration", "TLC on WriteBack.tla (+2 mutants) + strace fault/kill schedules on the unmodified CLI validated against WriteBackTrace.tla", "3.8 C16",
-   "Every system call on target/.tmp/.bak of a --fix [--backup] run is failed or killed in turn (strace inject), across modes, umasks and a stale .tmp; TLC checks the recorded call sequence is one the protocol allows and that the disk is atomic, mode-preserving, backup-faithful, tmp-free at every step.",
+   "Every system call on target/.tmp/.bak of a --fix [--backup] run is failed or killed in turn (strace inject), across modes, umasks, a stale .tmp and a target with a second hard link; TLC checks the recorded call sequence is one the protocol allows and that the disk is atomic, mode-preserving, backup-faithful, tmp-free at every step; "
+   "C16_RejectedUntouched on multi-file, multi-job runs validated against Main.tla.",
    "strace; injected failure = call not executed; single process; Linux semantics as modelled in WriteBackOps.tla Effect."),
  "C18": ("model_checking", "trace validation against FixTrace.tla + TLC on FixPipeline.tla (splice/remap mechanisms, mutants)", "6 C18",
    "At every analysis the role index is compared with an independent recomputation, every region of interest with the identical slice of the list; every fix is checked to be exactly the sum of its windows' real changes (C18_StepIsSumOfHunks, C18_WindowsExact, C18_ToiIsSlice, C18_NoCollateral, C18_IndexAgrees, C18_RemapDiscipline).", FIX_NOTE),
@@ -41,7 +43,7 @@ CHK_NOTE = ("Trusted: TLC/SANY, the ground-truth hook (violations standing on th
 CHECKS.update({
  "C06": ("exploration", "trace validation against CheckTrace.tla (repeat / permuted order / disabled subsets / attribute digests)", "6 C06",
    "Relational check with the specification as the oracle: per file an all-phases check, the same check repeated on the same objects, with the rule list permuted, and with seeded subsets of rules disabled; "
-   "TLC checks equality of the violation sets (modulo the documented later-sub-phase dependence) and that no analysis changed any token attribute.", CHK_NOTE),
+   "TLC checks equality of the violation sets (modulo the documented later-sub-phase dependence) and that no analysis changed any token attribute, the token index, or the configuration another rule holds; the same under a configuration whose option lists are shared by all rules.", CHK_NOTE),
  "C13": ("model_checking", "TLC on CheckReport.tla (+mutant) and CheckTrace.tla executing the spec's Check on recorded per-rule violations", "6 C13",
    "Design: gated report = prefix of the all-phases report for every small rule table / violation assignment / skip set (884k cases; stop-inside-subphase mutant fails). "
    "Binding: per (file, configuration incl. phase and severity re-assignments) TLC executes Check on the violations of an --all_phases run and compares with what each (ap, skip) run reported, its last phase, rules-ran count and status; "
@@ -49,22 +51,26 @@ CHECKS.update({
  "C14": ("model_checking", "trace validation against CheckTrace.tla (formats as projections of one violation set)", "6 C14",
    "main() is run per (files incl. rejected / mis-configured, output format, severity configuration incl. user-defined severities) with --json --junit --quality_report; every artefact is parsed back and TLC compares it with the projection of the ground-truth set, the printed counts and the exit status.", CHK_NOTE),
  "C20": ("model_checking", "trace validation against CheckTrace.tla and FixTrace.tla (C20_OnlyListed)", "6 C20",
-   "Per file: --fix_only with nothing / every rule: all / one rule / one rule with a subset of its lines / two rules; TLC checks all==plain fix, none==untouched, only listed rules and lines fix, listed lines of a line-local rule are exactly the lines that change.", CHK_NOTE),
+   "Per file: --fix_only with nothing / every rule: all / one rule / one rule with a subset of its lines / two rules; TLC checks all==plain fix, none==untouched, only listed rules and lines fix, listed lines of a line-local rule are exactly the lines that change; "
+   "one selection given for several files of one invocation (C20_AllIsPlainFix on the Main.tla records).", CHK_NOTE),
 })
 CHECKS.update({
  "C05": ("exploration", "trace validation against RelayoutTrace.tla (roles of a file vs roles of its re-layouts) + TLC on Relayout.tla", "6 C05",
-   "Relational check with the specification as the oracle: every base fixture x re-layout recipe (comments at line ends / own lines, widen / narrow blanks, line breaks at every k-th blank, joins, upper / lower / flipped case) is classified by the real parser; "
-   "TLC requires the variant to be accepted and the role sequence over code tokens to be equal. Design model: roles are a function of the code only (layout-sensitive mutant fails).",
+   "Relational check with the specification as the oracle: every base fixture x re-layout recipe (comments at line ends / own lines, widen / narrow / remove / lopsided blanks, line breaks at every k-th blank, joins, upper / lower / flipped case) is classified by the real parser; "
+   "TLC requires the variant to be accepted, the code tokens and the role sequence over them to be equal. Lexical level: C05_DelimitersSeparate is an invariant of the transcribed tokenizer (TLC, 23-class alphabet, pre-repair mutant) and a clause on every recorded run of the real tokens.create. "
+   "Design model: roles are a function of the code only (layout-sensitive mutant fails).",
    "Trusted: harness/variants.py (self-checked by the harness's own lexer), TLC. The classifier is covered on the explored (file, recipe) pairs only; files with pragma / preprocessor regions are left out."),
  "C12": ("model_checking", "TLC on Config.tla (reference precedence vs transcription of the loader; known-finding and mutant configs) + real configuration stacks validated against ConfigTrace.tla", "6 C12",
    "Design: 524k stacks of two sources x sections x {absent,a,b,a+b}. Binding: stacks instantiated as JSON files for all ~960 rules at once, loaded by config.New + configure_rules, the value every rule ends up with and acts on compared with the reference; "
    "unknown / deprecated rule names must be diagnosed; layered vs flat configurations behave alike.",
    "Trusted: TLC; user_error_message / indent_size stand for every configurable attribute; per-file sections come from one source per stack."),
- "C15": ("model_checking", "TLC on Batch.tla (+leak mutant) + traced command-line runs over file lists / orders / job counts validated against BatchTrace.tla", "6 C15",
-   "Every apply_rules call of real multi-file, multi-process runs is recorded with digests of all module-level state before/after and of its result; TLC checks leak constancy, equality with the solo p=1 result, output order, exit = OR, --stdin vs by-name.",
+ "C15": ("model_checking", "TLC on Batch.tla / Main.tla (+mutants) + traced command-line runs over file lists / orders / job counts validated against BatchTrace.tla and MainTrace.tla (interleaving search)", "0.1c, 6 C15",
+   "Every apply_rules call of real multi-file, multi-process runs is recorded with digests of all module-level state before/after and of its result; TLC checks leak constancy, equality with the solo p=1 result, output order, exit = OR, --stdin vs by-name. "
+   "Main.tla models the command line as a whole (parent, workers, stop flag, exit, artefacts, disk; every schedule of <= 3/4 files x 1-3 jobs; termination under fairness; 2 mutants; the stop-race known finding as a config); "
+   "MainTrace.tla validates the same runs from per-process event logs that have no global order - TLC finds the interleaving or reports that none exists.",
    "Trusted: the generic leak digest (all non-function globals and class attributes of vsg.* plus the shared config/argument objects), fork start method."),
  "C17": ("model_checking", "trace validation against ConfigTrace.tla (-oc / -rc round trips and behaviour equivalence)", "6 C17",
-   "For styles x configuration stacks: -oc a; -c a -oc b; TLC compares the flattened contents entry by entry, -rc samples against the -oc entry, and check/fix runs under (style, stack) vs under -c a on sample inputs.",
+   "For styles x configuration stacks: -oc a; -c a -oc b; TLC compares the flattened contents entry by entry, -rc samples against the -oc entry, what every rule holds in memory under (style, stack) vs under -c a (every configurable attribute by value, lists in order), and check/fix runs under both on sample inputs.",
    "Trusted: TLC; scenarios are a designed list (styles x sweeps x layered x user severities), inputs a small sample."),
 })
 checks = []
